@@ -1166,26 +1166,33 @@ pub fn run_c16(cfg: &Cfg) -> Report {
     // non-hex ASCII byte at each nibble position
     let non_dash: Vec<u8> = (0u8..128).filter(|c| *c != b'-').collect();
     let nnd = non_dash.len() as u64;
-    rep.merge(par_cases(cfg, "uuid.malformed", 6 + 4 * nnd + 32 * nnh, |cx| {
+    rep.merge(par_cases(cfg, "uuid.malformed", 12 + 4 * nnd + 32 * nnh, |cx| {
         let mut r = cx.rng.clone();
         let good = gen_uuid(&mut r);
-        let s: String = if cx.idx < 6 {
+        let s: String = if cx.idx < 12 {
             match cx.idx {
                 0 => good[..35].to_string(),
                 1 => format!("{}0", good),
                 2 => String::new(),
                 3 => good.replace('-', ""),
                 4 => format!("{{{}}}", good),
-                _ => format!("{}\u{ff11}{}", &good[..1], &good[2..]),
+                5 => format!("{}\u{ff11}{}", &good[..1], &good[2..]),
+                // a complete UUID followed by a further group
+                6 => format!("{}-", good),
+                7 => format!("{}-00", good),
+                8 => format!("{}--", good),
+                9 => format!("{}-{}", good, good),
+                10 => format!("-{}", good),
+                _ => format!("{} ", good),
             }
-        } else if cx.idx < 6 + 4 * nnd {
-            let i = cx.idx - 6;
+        } else if cx.idx < 12 + 4 * nnd {
+            let i = cx.idx - 12;
             let pos = [8usize, 13, 18, 23][(i / nnd) as usize];
             let mut b = good.into_bytes();
             b[pos] = non_dash[(i % nnd) as usize];
             String::from_utf8(b).unwrap()
         } else {
-            let i = cx.idx - 6 - 4 * nnd;
+            let i = cx.idx - 12 - 4 * nnd;
             let nib = (i / nnh) as usize;
             let bad = non_hex[(i % nnh) as usize];
             let mut b = good.into_bytes();
